@@ -11,6 +11,7 @@ use wirm::ir::types::Location;
 use wirm::iterator::iterator_trait::{IteratingInstrumenter, Iterator};
 use wirm::iterator::module_iterator::ModuleIterator;
 use wirm::opcode::{Inject, InjectAt, Instrumenter};
+use wasmparser::Operator;
 use wirm::Module;
 
 static BUGS: AtomicU64 = AtomicU64::new(0);
@@ -36,6 +37,10 @@ struct LCase {
     entry: Vec<Op>,
     exit: Vec<Op>,
     path: Path,
+    /// injections that are made after the plan and the function entry / exit code and withdrawn again with
+    /// clear_instr_at (true = through the iterator, false = through the function modifier): the site must then be encoded
+    /// as if they had never been made
+    ghosts: Vec<(usize, Mode, bool)>,
     del_import: bool,
 }
 
@@ -109,6 +114,17 @@ fn run_case(c: &LCase, toks: &mut HashMap<String, u64>) -> Obs {
             let mut it = ModuleIterator::new(&mut module, &vec![]);
             if !c.entry.is_empty() { it.func_entry(); for op in &c.entry { it.inject(op.wp()); } }
             if !c.exit.is_empty() { it.func_exit(); for op in &c.exit { it.inject(op.wp()); } }
+        }
+        for (k, (idx, mode, via_iter)) in c.ghosts.iter().enumerate() {
+            let loc = Location::Module { func_idx: FunctionID(fid), instr_idx: *idx };
+            {
+                // FunctionModifier::inject_at addresses the instruction whatever function-level mode is still active
+                let mut fm = module.functions.get_fn_modifier(FunctionID(fid)).unwrap();
+                fm.inject_at(*idx, mode.im(), Operator::I32Const { value: 9_000_000 + k as i32 });
+                fm.inject_at(*idx, mode.im(), Operator::Drop);
+            }
+            if *via_iter { let mut it = ModuleIterator::new(&mut module, &vec![]); it.clear_instr_at(loc, mode.im()); }
+            else { let mut fm = module.functions.get_fn_modifier(FunctionID(fid)).unwrap(); fm.clear_instr_at(loc, mode.im()); }
         }
         if c.del_import { module.delete_func(FunctionID(1)); }
         let a = module.encode();
@@ -231,7 +247,20 @@ fn gen_case(r: &mut Rng, prop: &str) -> LCase {
     let entry = if fnlevel && r.chance(1, 5) { gen_probe(r, &mut pid) } else { vec![] };
     let exit = if fnlevel && r.chance(1, 5) { gen_probe(r, &mut pid) } else { vec![] };
     let del_import = prop == "C22" && r.chance(1, 12);
-    LCase { nparams, groups, body, plan, entry, exit, path, del_import }
+    // withdrawn injections: on (instruction, mode) pairs the plan does not use (clear_instr_at empties the whole list of a mode)
+    let mut ghosts: Vec<(usize, Mode, bool)> = vec![];
+    if r.chance(1, 4) {
+        for _ in 0..1 + r.below(2) {
+            let idx = r.below(body.len() as u64) as usize;
+            let mut ms = vec![Mode::Before, Mode::After, Mode::Alternate, Mode::Alternate];
+            if body[idx].is_blockish() { ms.extend([Mode::BlockEntry, Mode::BlockExit, Mode::SemanticAfter, Mode::BlockAlt]); }
+            if body[idx].is_branchy() { ms.push(Mode::SemanticAfter); }
+            let m = *r.pick(&ms);
+            if plan.iter().any(|(i, pm, _)| *i == idx && *pm == m) || ghosts.iter().any(|(i, gm, _)| *i == idx && *gm == m) { continue; }
+            ghosts.push((idx, m, r.chance(1, 2)));
+        }
+    }
+    LCase { nparams, groups, body, plan, entry, exit, path, del_import, ghosts }
 }
 
 fn main() {
@@ -254,13 +283,13 @@ fn main() {
             coq_bool(c.del_import), obs_s, coq_bool(o.second_same), o.bugs
         );
         let desc = format!(
-            "nparams={} groups={:?} path={:?} del_import={} body=[{}] plan=[{}] entry=[{}] exit=[{}] => {} valid={} second_same={} bugs={}",
-            c.nparams, c.groups, c.path, c.del_import, show_ops(&c.body), show_plan(&c.plan), show_ops(&c.entry), show_ops(&c.exit),
+            "nparams={} groups={:?} path={:?} del_import={} withdrawn(instr,mode,via_iterator)={:?} body=[{}] plan=[{}] entry=[{}] exit=[{}] => {} valid={} second_same={} bugs={}",
+            c.nparams, c.groups, c.path, c.del_import, c.ghosts, show_ops(&c.body), show_plan(&c.plan), show_ops(&c.entry), show_ops(&c.exit),
             match &o.first { None => "PANIC".to_string(), Some((b, g)) => format!("locals={:?} body=[{}]", g, show_ops(b)) },
             o.valid, o.second_same, o.bugs
         );
         let nontrivial = !c.plan.is_empty() || !c.entry.is_empty() || !c.exit.is_empty();
-        let mut tags = vec![format!("path={:?}", c.path), format!("obs={}", if o.first.is_some() { "encoded" } else { "panicked" }), format!("plan_len={}", c.plan.len()), format!("body_len_bucket={}", c.body.len() / 10 * 10)];
+        let mut tags = vec![format!("withdrawn={}", c.ghosts.len()), format!("path={:?}", c.path), format!("obs={}", if o.first.is_some() { "encoded" } else { "panicked" }), format!("plan_len={}", c.plan.len()), format!("body_len_bucket={}", c.body.len() / 10 * 10)];
         for (_, m, _) in &c.plan { tags.push(format!("mode={:?}", m)); }
         if !c.entry.is_empty() { tags.push("fn_entry".into()); }
         if !c.exit.is_empty() { tags.push("fn_exit".into()); }
